@@ -44,7 +44,7 @@ FAULTS = ["req_loss", "rep_loss", "rep_delay", "rep_dup", "retryable_rc",
 def plan(tier, prop):
     quick = tier == "quick"
     return {
-        "runs": 2500 if quick else 150000,
+        "runs": 6000 if quick else 300000,
         "budget_s": 50 if quick else 800,
         "chunk": 20 if quick else 100,
         "rule": "each run = one machine (1, 3, 6 or 12 SpiNN-5 boards, any "
